@@ -3,5 +3,6 @@
 set -e
 cd "$(dirname "$0")"
 /venv/bin/python -W ignore harness/pyfacts.py all
+/venv/bin/python -W ignore harness/gendriver.py
 cd lean
 lake build Yaql yaqlmodel
